@@ -65,6 +65,21 @@ Load(doc, ver) ==
   THEN /\ cells' = Refiled(doc, ver) /\ hdr' = Current /\ exempt' = (ver < 101) /\ out' = "ok"
   ELSE /\ out' = "ValueError" /\ UNCHANGED <<hdr, cells, exempt>>
 
+(* loads() of a second document into a manifest that already holds images (merging per-arch manifests):
+   the document's images are re-filed as above and ADDED to the cells; each passes the Add guard with
+   hdr = ver against everything filed.  (On a refusal the real object is left half-merged; behaviours end there.) *)
+Merge(cs, ds) == [c \in DOMAIN cs \cup DOMAIN ds |->
+                    (IF c \in DOMAIN cs THEN cs[c] ELSE {}) \cup (IF c \in DOMAIN ds THEN ds[c] ELSE {})]
+LoadIntoOk(doc, ver) ==
+  LET ds == Refiled(doc, ver)
+  IN  /\ \A c \in DOMAIN ds : ~BadArch(c[2])
+      \* only pairs involving a NEW image are examined (a pair already present from a pre-1.1 load stays)
+      /\ (ver >= 101 => ~\E x \in Filed(ds), y \in Filed(cells) \cup Filed(ds) : Collides(x, y))
+LoadInto(doc, ver) ==
+  IF LoadIntoOk(doc, ver)
+  THEN /\ cells' = Merge(cells, Refiled(doc, ver)) /\ hdr' = Current /\ exempt' = (exempt \/ ver < 101) /\ out' = "ok"
+  ELSE /\ out' = "ValueError" /\ UNCHANGED <<hdr, cells, exempt>>
+
 -----------------------------------------------------------------------------
 (* Properties *)
 TypeOK        == hdr \in Nat /\ exempt \in BOOLEAN
